@@ -435,6 +435,9 @@ class Fn:
             if name == "strip_prefix" and len(args) == 1 and args[0][0] == "str":
                 lit = args[0][1].strip('"')
                 return "(strip_prefix_lit [%s] %s)" % ("; ".join(str(ord(c)) for c in lit), self.ex(recv, env))
+            if name == "contains" and len(args) == 1 and recv[0] == "range" and recv[3]:
+                x = self.ex(args[0], env)
+                return "((%s <=? %s) && (%s <=? %s))" % (self.ex(recv[1], env), x, x, self.ex(recv[2], env))
             if name == "map_or_else" and len(args) == 2 and args[1][0] == "closure" and len(args[1][1]) == 1 and args[0][0] == "path" \
                     and re.match(r"Option<(.*)>$", self.ty(recv, env) or "") and "::".join(args[0][1]) in self.calls:
                 m = re.match(r"Option<(.*)>$", self.ty(recv, env))
@@ -902,6 +905,19 @@ class Fn:
             v = su[1][1][0]
             tmpl = self.spec["updates"][v + "." + su[2]]
             return "let %s := %s in %s" % (self.var(v), self.apply(tmpl, [self.var(v)] + [self.ex(a, env) for a in su[3] if a[0] != "closure"]), after(env))
+        if su is not None and su[0] == "call" and su[1][0] == "path" and "::".join(su[1][1]) in self.spec.get("call_checks", {}):
+            if s[1][0] != "try":
+                raise Unsupported("the result of %s is no longer propagated with `?`" % "::".join(su[1][1]))
+            tmpl, errv = self.spec["call_checks"]["::".join(su[1][1])]
+            return "if %s then %s else %s" % (self.apply(tmpl, [self.ex(a, env) for a in su[2]]), paren(after(env)), ctx.ret(errv))
+        sm = s[3] if (k == "let" and s[1][0] in ("pbind", "pwild") and s[3] is not None) else su
+        while sm is not None and (sm[0] == "try" or (sm[0] == "field" and sm[2] == "await")):
+            sm = sm[1]
+        if sm is not None and sm[0] == "mcall" and sm[1][0] == "path" and len(sm[1][1]) == 1 and (sm[1][1][0] + "." + sm[2]) in self.spec.get("mcall_effects", {}):
+            efft = self.spec["mcall_effects"][sm[1][1][0] + "." + sm[2]]
+            bind = "let %s := tt in " % self.var(s[1][1]) if (k == "let" and s[1][0] == "pbind") else ""
+            env9 = dict(env, **{s[1][1]: "()"}) if (k == "let" and s[1][0] == "pbind") else env
+            return "let effs := effs ++ [%s] in %s%s" % (efft, bind, after(env9))
         # `obj.check()?;` where a failure leaves the function with a fixed value
         if su is not None and s[1][0] == "try" and su[0] == "mcall" and ("." + su[2]) in self.spec.get("try_checks", {}):
             tmpl, errv = self.spec["try_checks"]["." + su[2]]
@@ -2107,6 +2123,53 @@ def functions():
         return "Definition g_sync_files (checked verify : bool) (source : list Z) (fs : fstate) : fstate * option sresult :=\n  %s." % text
     out.append(("sync_files", "src/async_sync.rs AsyncCopiaSync::sync_files", None, t_sync_files))
 
+    def t_validate_bs():
+        src = read("src/bin/copia/main.rs")
+        spec = dict(signature=[("size", "usize")], calls={".is_power_of_two": ("is_pow2 {0}", "bool")},
+                    ok=lambda s_: "true", errs=[(r"Block size must be", "false")])
+        return translate_fn(src, "validate_block_size", None, spec, "g_validate_block_size", "(size : Z)", "bool")
+    out.append(("validate_block_size", "src/bin/copia/main.rs validate_block_size", None, t_validate_bs))
+
+    CLI_OUTPUT_LET = """{
+    let output = output.unwrap_or_else(|| {
+        let mut p = %s.clone();
+        p.set_extension("%s");
+        p
+    });
+}"""
+
+    def t_cli(fname, first, ext, gname):
+        def go():
+            src = read("src/bin/copia/main.rs")
+            params, ret, body = R.find_fn(src, fname, None)
+            norm = lambda x: json.loads(json.dumps(x))
+            want = R.Parser(R.tokenize(CLI_OUTPUT_LET % (first, ext))).block()[1][0]
+            stmts = list(body[1])
+            if not stmts or norm(stmts[0]) != norm(want):
+                raise Unsupported("%s: the output path is no longer `output.unwrap_or_else(|| { let mut p = %s.clone(); p.set_extension(\"%s\"); p })`" % (fname, first, ext))
+            stmts = stmts[1:]
+            spec = dict(try_transparent=True, prints_ignored=True, opt_try_calls=("bincode::deserialize",), try_none="effs ++ [KFail]",
+                        fields={("copia::Delta", "block_size"): ("(block_size_of {0})", "u32"), ("copia::Signature", "block_size"): ("(block_size_of {0})", "usize")},
+                        calls={"bincode::deserialize": ("decoded (* {0} *)", "Option<Decoded>"), "tokio::io::BufReader::new": ("{0}", "File"),
+                               "bincode::serialize": ("tt (* {0} *)", "Vec<u8>")},
+                        effects={"tokio::fs::read": "KRead {0}", "AsyncCopiaSync::with_block_size": "KEngine {0}", "tokio::fs::File::open": "KOpen {0}",
+                                 "tokio::fs::File::create": "KCreate {0}", "tokio::fs::write": "KWrite {0} (* {1} *)"},
+                        mcall_effects={"sync.patch": "KPatch", "sync.delta": "KDelta"},
+                        call_checks={"validate_block_size": ("g_validate_block_size {0}", "effs ++ [KFail]")},
+                        local_types={"delta": "Decoded", "sig": "Decoded"},
+                        ok=lambda s_: "effs ++ [KDone]",
+                        # the path parameters are bound first, so that a later `let delta: Delta = ..` shadows the path as it does in Rust
+                        prologue="let effs := [] in " + "".join("let %s := %s in " % (p_, {"source": "KSource", "signature": "KInput", "basis": "KBasis", "delta": "KInput", "output": "KOutput"}[p_]) for p_, _ in params))
+            fn = Fn(spec)
+            env = {p_: "Path" for p_, _ in params}
+            if sorted(env) != sorted(["output", first] + (["delta"] if fname == "run_patch" else ["signature"])):
+                raise Unsupported("signature of %s is %s" % (fname, params))
+            text = spec["prologue"] + fn.block(("block", stmts, body[2]), env, Ctx(val=(lambda x: x), ret=(lambda x: x), fall=None))
+            return "Definition %s (decoded : option Z) : list keff :=\n  %s." % (gname, text)
+        return go
+    out.append(("run_patch", "src/bin/copia/main.rs run_patch", None, t_cli("run_patch", "basis", "patched", "g_run_patch")))
+    out.append(("run_delta", "src/bin/copia/main.rs run_delta", None, t_cli("run_delta", "source", "delta", "g_run_delta")))
+
     def t_run_remote():
         src = read("src/bin/copia/incremental.rs")
         params, ret, body = R.find_fn(src, "run_remote", None)
@@ -2208,6 +2271,7 @@ GROUPS = {
     "Archive": ("Model.Archive", "archive", ["archive_load"]),
     "Plan": ("Model.Glob Model.Plan", False, ["needs_transfer", "glob_match", "is_excluded", "build_plan"]),
     "Protocol": ("Model.Checksum Model.Delta Model.Protocol", False, ["from_u8", "hvalidate"]),
+    "CliReaders": ("Model.Checksum Model.Delta Model.Protocol", "clireaders", ["validate_block_size", "run_patch", "run_delta"]),
     "DeltaV": ("Model.Checksum Model.Delta", True, ["delta_validate"]),
     "Scan": ("Model.Checksum Model.Delta", "scan", ["delta", "async_delta"]),
     "SyncFiles": ("Model.Checksum Model.Delta", "syncfiles", ["sync_files"]),
@@ -2362,6 +2426,11 @@ def main():
                      "Definition matched_of (d : Delta.delta digest) : Z := out_len (d_ops _ d) - lits (d_ops _ d).\n"
                      "Definition patch_out (checked verify : bool) (basis : list Z) (d : Delta.delta digest) : option (list Z) :=\n  match Delta.patch digest H deq checked verify basis d with POk o => Some o | _ => None end.\n\n"
                      + "\n".join(texts) + "End WithDigest.\n")
+        elif digest == "clireaders":
+            body += ("\n(* the files and steps of `copia delta` / `copia patch`; [decoded] = the block size carried by the file that\n   bincode::deserialize accepted (None = refused) *)\n"
+                     "Inductive kfile := KSource | KInput | KBasis | KOutput.\nDefinition block_size_of (z : Z) : Z := z.\n"
+                     "Inductive keff := KRead (f : kfile) | KFail | KEngine (bs : Z) | KOpen (f : kfile) | KCreate (f : kfile) | KPatch | KDelta | KWrite (f : kfile) | KDone.\n\n"
+                     + "\n".join(texts))
         elif digest == "archivesys":
             body = (HEADER % (group, imports)) + "\nSection WithFs.\nVariable path_exists : apath -> bool.   (* path.exists() *)\n\n" + "\n".join(texts) + "End WithFs.\n"
         elif digest == "onewaysys":
